@@ -244,7 +244,7 @@ def check_scenarios(impl_by_tag):
 
 
 def run(v, tier, seed, replay):
-    lean = C.lean_check(["C09", "E2E"], tier)
+    lean = C.lean_check(["C09", "E2E", "Fifo"], tier)
     ok, err = C.cargo_build("fh-core", ["fh-spsc", "fh-seq"])
     r = C.Rng(seed * 1000003 + 9)
     cases = []
